@@ -35,7 +35,7 @@ def run_walks(seed, tier, label, n_quick, n_thorough, adversarial=False, strict=
             h.ask("session.reset")
             w = Walk(Rng(seed, f"walk:{label}:{i}"), h, adversarial=adversarial or (i % 3 == 2), strict_driver=strict,
                      length=rng.choice([40, length, length * 2, length * 4]), snap_after_svc=snap_after_svc or (i % 4 == 1),
-                     profile="backlog" if i % 5 == 3 else "default")
+                     profile="backlog" if i % 5 == 3 else ("qos2tiny" if i % 5 == 4 else "default"))
             w.run()
             walks.append(w)
     finally:
